@@ -210,7 +210,7 @@ class Gen:
             if v >= 0 and r.random() < 0.05:
                 s = "+" + s
             if r.random() < 0.05:
-                s = ("-0" + s[1:]) if s.startswith("-") else "0" + s
+                s = (s[0] + "0" + s[1:]) if s[0] in "+-" else "0" + s
             return s
         mn, mx, vals = 0, 12, None
         for c in a["checks"]:
